@@ -8,12 +8,14 @@ Import ListNotations.
 Fixpoint index_of (x : nat) (l : list nat) : nat :=
   match l with [] => 0 | y :: l' => if y =? x then 0 else S (index_of x l') end.
 
-(* _find_connected_qubit(qubits=(a,b), queue, mapping): None = raises (gate on > 2 qubits) *)
+(* _find_connected_qubit(qubits=(a,b), queue, mapping): measurement gates are skipped;
+   None = raises (non-measurement gate on > 2 qubits) *)
 Fixpoint find_connected (a : nat) (poss : list nat) (queue : list gate) (m : list nat) : option nat :=
   match queue with
   | [] => Some a
   | g :: rest =>
-      if 2 <? nq g then None
+      if is_meas g then find_connected a poss rest m
+      else if 2 <? nq g then None
       else if nq g =? 2 then
         let poss' := filter (fun x => mem x (map (at_ m) (gqs g))) poss in
         match poss' with
